@@ -179,13 +179,14 @@ static jwt_value_error_t jwt_set_json(json_t *which, jwt_value_t *jval)
 	} else {
 		/* Add object at name */
 		if (!jwt_obj_check(which, jval)) {
+			/* json_object_set_new() consumes the reference, also
+			 * when it fails. */
 			if (json_object_set_new(which, jval->name, json_val))
 				jval->error = JWT_VALUE_ERR_INVALID; // LCOV_EXCL_LINE
-		}
-
-		/* If things failed, it means we're responsible for this ref */
-		if (jval->error != JWT_VALUE_ERR_NONE)
+		} else {
+			/* Not stored, so we're responsible for this ref */
 			json_decrefp(&json_val);
+		}
 	}
 
 	return jval->error;
